@@ -150,7 +150,12 @@ func c07Exec(tr *vh.Transcript, ops []string) {
 			serial++
 			s.AddTask(f[1], mustURL("stratum+tcp://x:@"+f[1]+"dest:1"), float64(job),
 				func(diff float64, ID string) { rec.add("onsubmit %d %d", tid, int64(diff)) },
-				func(ID string, hr float64, rem float64) { rec.add("ondisconnect %d %d", tid, int64(rem)) },
+				func(ID string, hr float64, rem float64) {
+					rec.add("ondisconnect %d %d", tid, int64(rem))
+					if !s.IsDisconnecting() { // the contract asks for a replacement from inside this callback: the dying miner must not be eligible
+						rec.add("still-eligible-during-ondisconnect %d", tid)
+					}
+				},
 				func(ID string, hr float64, rem float64, err error) { rec.add("onend %d %d %s", tid, int64(rem), c07EndKind(err)) },
 				start.Add(time.Duration(dl)))
 		case "remove":
@@ -276,7 +281,12 @@ func c07SlowExec(tr *vh.Transcript, ops []string) {
 			serial++
 			s.AddTask(f[1], mustURL("stratum+tcp://x:@"+f[1]+"dest:1"), float64(job),
 				func(diff float64, ID string) { rec.add("onsubmit %d %d", tid, int64(diff)) },
-				func(ID string, hr float64, rem float64) { rec.add("ondisconnect %d %d", tid, int64(rem)) },
+				func(ID string, hr float64, rem float64) {
+					rec.add("ondisconnect %d %d", tid, int64(rem))
+					if !s.IsDisconnecting() { // the contract asks for a replacement from inside this callback: the dying miner must not be eligible
+						rec.add("still-eligible-during-ondisconnect %d", tid)
+					}
+				},
 				func(ID string, hr float64, rem float64, err error) { rec.add("onend %d %d %s", tid, int64(rem), c07EndKind(err)) },
 				start.Add(time.Duration(dl)))
 		case "sremove":
